@@ -63,12 +63,21 @@ def explore_c20(rng, tier, res, deep=False):
         for i in range(n):
             res.evaluations += 1
             doc = doc_with_all_kinds(rng, rng.choice([1, 2, 3]))
-            kind = rng.choice(["valid"] * 5 + ["syntax", "type", "index", "name", "badjson", "badbytes", "deep", "mutant", "rootish", "rootish"])
+            kind = rng.choice(["valid"] * 5 + ["syntax", "type", "index", "name", "badjson", "badbytes", "deep", "mutant", "rootish", "rootish", "spaced"])
             q = walk_query(rng, doc, g, filters=True) if rng.random() < 0.5 else g.query()
             if kind == "rootish":
                 # the root node itself / every kind of whole document, empty and scalar ones included
                 doc = rng.choice([{}, [], "", 0, False, None, 0.0, "x", 1, True, [0], {"a": None}, [[]], [{}], -0.0, 1.5, "é😀"])
                 q = rng.choice(["$", "$", "$.*", "$..*", "$[?@]", "$[*]", "$[0]", "$['a']", "$[?@ == 0]", "$ "[:1]])
+            if kind == "spaced":
+                # blank space INSIDE string literals (runs of spaces, no-break and other Unicode spaces): the text of a
+                # query — also one read from a file — is taken as it is, only stripped at its ends
+                sp = ["a b", "a  b", "a   b", "a\u00a0b", "a\u2003b", "a\u3000b", " a", "a ", "  ", "a \u00a0 b", "x\u2028y"]
+                doc = {k: i for i, k in enumerate(sp)}
+                doc["t"] = [{"n": k} for k in sp]
+                k1 = rng.choice(sp)
+                q = rng.choice([f"$[{gen.quote_name(rng, k1, plain=True)}]", f"$.t[?@.n == {gen.quote_name(rng, k1, plain=True)}]",
+                                f"$[{gen.quote_name(rng, k1, plain=True)}, {gen.quote_name(rng, rng.choice(sp), plain=True)}]"])
             doc_bytes = json.dumps(doc, ensure_ascii=rng.random() < 0.5).encode("utf8")
             if kind == "syntax":
                 q = rng.choice(["$[", "$.a b", "$[?@.a==01]", "$[?@.a &&]", "$..", "$['\\x']", "$[1:2:3:4]"])
@@ -89,7 +98,7 @@ def explore_c20(rng, tier, res, deep=False):
                 doc_bytes = json.dumps(deep_doc).encode()
             debug = rng.random() < 0.2
             pretty = rng.random() < 0.4
-            use_rfile = rng.random() < 0.3
+            use_rfile = rng.random() < (0.7 if kind == "spaced" else 0.3)
             use_stdin = rng.random() < 0.3 and kind != "badbytes"
             use_ofile = rng.random() < 0.4
             argv = []
